@@ -8,6 +8,10 @@
 #include <vector>
 #include <initializer_list>
 
+// Generator generation: replay files written before a generator learned a new kind of choice carry a lower number (or none = 1),
+// so that old regression tapes keep decoding to the case they were saved for.
+inline int g_tape_gen = 2;
+
 struct Tape {
   std::vector<uint32_t> w;
   size_t pos = 0;
@@ -54,14 +58,14 @@ static inline uint64_t fnv1a(const void *p, size_t n, uint64_t h = 1469598103934
 
 static inline bool tape_load(const char *path, std::vector<uint32_t> &out) {
   FILE *f = fopen(path, "r"); if (!f) return false;
-  out.clear(); int c; std::string line;
-  auto flush = [&]() { if (!line.empty() && line[0] != '#') { const char *p = line.c_str(); while (*p == ' ') p++; if (*p >= '0' && *p <= '9') out.push_back((uint32_t)strtoul(p, nullptr, 10)); } line.clear(); };
+  out.clear(); int c; std::string line; g_tape_gen = 1;
+  auto flush = [&]() { if (!line.empty() && line[0] == '#') { size_t q = line.find("gen="); if (q != std::string::npos) g_tape_gen = atoi(line.c_str() + q + 4); } if (!line.empty() && line[0] != '#') { const char *p = line.c_str(); while (*p == ' ') p++; if (*p >= '0' && *p <= '9') out.push_back((uint32_t)strtoul(p, nullptr, 10)); } line.clear(); };
   while ((c = fgetc(f)) != EOF) { if (c == '\n') flush(); else line.push_back((char)c); }
   flush(); fclose(f); return true;
 }
 static inline bool tape_save(const char *path, const std::vector<uint32_t> &w, const char *hdr = nullptr) {
   FILE *f = fopen(path, "w"); if (!f) return false;
-  if (hdr) fprintf(f, "# %s\n", hdr);
+  fprintf(f, "# gen=2\n"); if (hdr) fprintf(f, "# %s\n", hdr);
   for (uint32_t x : w) fprintf(f, "%u\n", x);
   fclose(f); return true;
 }
